@@ -55,10 +55,12 @@ def judge_cg(case, ctx, rng):
     opt = O.opt_partition(vals, k, name, kp, vectors)
     lpt = Counter(sum(b) for b in R.lpt(vals, k))
     lpt_value = O.objval(name, list(lpt.elements()), kp)
+    greedy_forms = [lpt]
     h3 = bool(case["cg_mask"] >> 2 & 1) and name == "minmax"
     if h3:
-        # with heuristic 3 switched on (min-max only) the first leaf is LPT cut short by Korf's documented rule: same largest sum, other bins may differ
-        lpt = Counter(R.lpt_with_heuristic3(vals, k))
+        # with heuristic 3 switched on (min-max only) the first leaf MAY be LPT cut short by Korf's documented rule: same largest sum, other bins may differ. Plain LPT
+        # stays acceptable: the library applies the rule only when it recognises the objective (it does not for an equal-but-not-identical objective instance)
+        greedy_forms.append(Counter(R.lpt_with_heuristic3(vals, k)))
 
     def run(limit):
         with counting_clock(cgm) as clk:
@@ -136,7 +138,7 @@ def judge_cg(case, ctx, rng):
             v, ms = value_of(out)
             if not first_seen:
                 first_seen = True
-                if ms != lpt or v != lpt_value:
+                if ms not in greedy_forms or v != lpt_value:
                     raise Bad("first_solution_is_not_the_greedy_one", {"limit": L, "sums": sorted(ms.elements()), "lpt": sorted(lpt.elements()), "heuristic_3": h3,
                                                                        "value": v, "lpt_value": lpt_value})
                 if h3:
